@@ -43,6 +43,90 @@ func main() {
 	pkgVars := map[string]string{}   // package-level var -> file
 	varWrites := []string{}
 	mapDecls := map[string]bool{}
+	pkgScalars := map[string]bool{}   // package-level vars of a basic value type (only an assignment, ++/-- or & can change them)
+	keeperFields := map[string]bool{} // fields of the keeper structs that are not of a basic value type
+	basic := map[string]bool{"string": true, "bool": true, "int": true, "int8": true, "int16": true, "int32": true, "int64": true,
+		"uint": true, "uint8": true, "uint16": true, "uint32": true, "uint64": true, "byte": true, "rune": true, "float32": true, "float64": true}
+	// pre-pass: package-level variables and keeper fields of every file, so that a write is recognised whatever the file order
+	for _, d := range dirs {
+		files, _ := filepath.Glob(filepath.Join(*repo, d, "*.go"))
+		sort.Strings(files)
+		for _, f := range files {
+			base := filepath.Base(f)
+			if strings.HasSuffix(base, "_test.go") || strings.HasSuffix(base, ".pb.go") || strings.HasSuffix(base, ".pb.gw.go") || strings.HasSuffix(base, "_verif.go") {
+				continue
+			}
+			af, err := parser.ParseFile(fset, f, nil, 0)
+			if err != nil {
+				fmt.Fprintln(os.Stderr, err)
+				os.Exit(1)
+			}
+			rel, _ := filepath.Rel(*repo, f)
+			for _, decl := range af.Decls {
+				gd, ok := decl.(*ast.GenDecl)
+				if !ok {
+					continue
+				}
+				for _, sp := range gd.Specs {
+					if vs, ok := sp.(*ast.ValueSpec); ok && gd.Tok == token.VAR {
+						for i, nm := range vs.Names {
+							pkgVars[nm.Name] = rel
+							scalar := false
+							if id, ok := vs.Type.(*ast.Ident); ok && basic[id.Name] {
+								scalar = true
+							}
+							if vs.Type == nil && i < len(vs.Values) {
+								if _, ok := vs.Values[i].(*ast.BasicLit); ok {
+									scalar = true
+								}
+							}
+							if scalar {
+								pkgScalars[nm.Name] = true
+							}
+						}
+					}
+					if ts, ok := sp.(*ast.TypeSpec); ok && d == "x/cctp/keeper" {
+						if st, ok := ts.Type.(*ast.StructType); ok && (ts.Name.Name == "Keeper" || ts.Name.Name == "msgServer") {
+							for _, fl := range st.Fields.List {
+								if id, ok := fl.Type.(*ast.Ident); ok && basic[id.Name] {
+									continue
+								}
+								if len(fl.Names) == 0 {
+									keeperFields[ts.Name.Name+"."+strings.TrimPrefix(fmt.Sprint(fl.Type), "&")] = true
+									if se, ok := fl.Type.(*ast.StarExpr); ok {
+										delete(keeperFields, ts.Name.Name+"."+strings.TrimPrefix(fmt.Sprint(fl.Type), "&"))
+										keeperFields[ts.Name.Name+"."+fmt.Sprint(se.X)] = true
+									}
+								}
+								for _, nm := range fl.Names {
+									keeperFields[ts.Name.Name+"."+nm.Name] = true
+								}
+							}
+						}
+					}
+				}
+			}
+		}
+	}
+	isPkgVar := func(e ast.Expr) (string, bool) {
+		for {
+			switch v := e.(type) {
+			case *ast.IndexExpr:
+				e = v.X
+				continue
+			case *ast.SliceExpr:
+				e = v.X
+				continue
+			case *ast.ParenExpr:
+				e = v.X
+				continue
+			case *ast.Ident:
+				_, ok := pkgVars[v.Name]
+				return v.Name, ok && v.Name != "_"
+			}
+			return "", false
+		}
+	}
 	for _, d := range dirs {
 		files, _ := filepath.Glob(filepath.Join(*repo, d, "*.go"))
 		sort.Strings(files)
@@ -125,6 +209,16 @@ func main() {
 					ast.Inspect(x.Body, func(n ast.Node) bool {
 						switch v := n.(type) {
 						case *ast.CallExpr:
+							if id, ok := v.Fun.(*ast.Ident); ok && id.Name == "copy" && len(v.Args) == 2 {
+								if nm, ok := isPkgVar(v.Args[0]); ok && x.Name.Name != "init" {
+									varWrites = append(varWrites, rel+":"+x.Name.Name+":copy("+nm+")")
+								}
+							}
+							if se, ok := v.Fun.(*ast.SelectorExpr); ok && (strings.HasPrefix(se.Sel.Name, "PutUint") || se.Sel.Name == "FillBytes") && len(v.Args) >= 1 {
+								if nm, ok := isPkgVar(v.Args[0]); ok && x.Name.Name != "init" {
+									varWrites = append(varWrites, rel+":"+x.Name.Name+":"+se.Sel.Name+"("+nm+")")
+								}
+							}
 							if se, ok := v.Fun.(*ast.SelectorExpr); ok {
 								fx.calls[se.Sel.Name] = true
 								if se.Sel.Name == "Set" || se.Sel.Name == "Delete" {
@@ -148,7 +242,25 @@ func main() {
 							if id, ok := v.X.(*ast.Ident); ok && mapDecls[x.Name.Name+"."+id.Name] {
 								fx.rangesMap = append(fx.rangesMap, id.Name)
 							}
+						case *ast.IncDecStmt:
+							if nm, ok := isPkgVar(v.X); ok && x.Name.Name != "init" {
+								varWrites = append(varWrites, rel+":"+x.Name.Name+":"+nm)
+							}
+						case *ast.UnaryExpr:
+							if v.Op == token.AND {
+								if nm, ok := isPkgVar(v.X); ok {
+									varWrites = append(varWrites, rel+":"+x.Name.Name+":&"+nm)
+								}
+							}
 						case *ast.AssignStmt:
+							for _, lhs := range v.Lhs {
+								if _, isId := lhs.(*ast.Ident); isId {
+									continue
+								}
+								if nm, ok := isPkgVar(lhs); ok && x.Name.Name != "init" {
+									varWrites = append(varWrites, rel+":"+x.Name.Name+":"+nm+"[]")
+								}
+							}
 							for i, lhs := range v.Lhs {
 								if id, ok := lhs.(*ast.Ident); ok {
 									if v.Tok == token.DEFINE && i < len(v.Rhs) {
@@ -356,10 +468,19 @@ func main() {
 		if strings.HasPrefix(f, "x/cctp/client/") || f == "x/cctp/module.go" || strings.HasSuffix(f, "codec.go") || strings.HasSuffix(f, "errors.go") || n == "_" {
 			continue
 		}
+		if pkgScalars[n] {
+			continue // a basic value: it changes only through the writes listed below
+		}
 		pv = append(pv, coqStr(n))
 	}
 	sort.Strings(pv)
 	fmt.Fprintf(&sb, "Definition go_package_vars : list string := [%s].\n\n", strings.Join(pv, "; "))
+	var kf []string
+	for n := range keeperFields {
+		kf = append(kf, coqStr(n))
+	}
+	sort.Strings(kf)
+	fmt.Fprintf(&sb, "Definition go_keeper_reference_fields : list string := [%s].\n\n", strings.Join(kf, "; "))
 	sort.Strings(varWrites)
 	var vw []string
 	for _, x := range varWrites {
